@@ -570,6 +570,7 @@ for _p in ("C01", "C10"):
       also=[dict(file=NET, old="        if not is_ip(ip):\n            continue\n        if all(byte in b\"0x.\"", new="        if not _is_ip_cached(ip):\n            continue\n        if all(byte in b\"0x.\""), dict(file=NET, old=FUT, new=FUT_FT)])
 B("C11", "false-positive verdicts remembered in a module-level set (seed u18)", NET, "    domain_lower = domain.lower()\n", "    domain_lower = domain.lower()\n    if domain_lower in _REJECTED:\n        return True\n    _REJECTED.add(domain_lower)\n", "R3-shared-writes",
   also=[dict(file=NET, old="# False Positives\n", new="# False Positives\n_REJECTED: set[bytes] = set()\n")])
+B("C08", "rescan depth also charged for the open contexts (seed u04)", MD, "self.scan_node(hit, depth_limit - 1)", "self.scan_node(hit, depth_limit - len(stack) - 1)", "R2-decrement")
 B("C01", "memoised function takes a Node", "src/multidecoder/xor_helper.py", "def apply_xor_key(", "@functools.lru_cache(maxsize=16)\ndef apply_xor_key(", "R1-exception-escape",
   also=[dict(file="src/multidecoder/xor_helper.py", old="import regex as re\n", new="import functools\n\nimport regex as re\n")])
 
